@@ -8,7 +8,9 @@
 #![allow(clippy::all)]
 
 mod arena;
+mod c08;
 mod c18m;
+mod c18p;
 mod hidden;
 mod ops;
 mod report;
@@ -30,6 +32,7 @@ fn main() {
     let seed = args.u64("seed", 20260927);
     let workers = args.usize("workers", 16);
     let out = args.str("out");
+    arena::set_echo(args.flag("echo-cases") || cfg!(miri));
     match args.cmd.as_str() {
         #[cfg(feature = "interop")]
         "c19" => {
@@ -39,7 +42,16 @@ fn main() {
         "c18m" => {
             arena::install_crash_monitor();
             let mem = if args.str("mem") == Some("heap") || cfg!(miri) { c18m::Mem::Heap } else { c18m::Mem::Guarded };
-            let s = c18m::run(seed, args.usize("rounds", 2), mem, args.flag("subset"));
+            let s = c18m::run(seed, args.usize("rounds", 2), mem, args.flag("subset"), args.str("types"));
+            report::write_out(out, &s.to_json("C18", seed));
+        }
+        "c08" => {
+            c08::set_canon_nan(cfg!(miri) || args.flag("canon-nan"));
+            let s = c08::run(seed, args.usize("runs", 20000), workers);
+            report::write_out(out, &s.to_json("C08", seed));
+        }
+        "c18p" => {
+            let s = c18p::run(seed, args.usize("samples", 32), workers);
             report::write_out(out, &s.to_json("C18", seed));
         }
         #[cfg(feature = "interop")]
@@ -67,6 +79,11 @@ fn main() {
             let got: Option<(String, String)> = match j["property"].as_str().unwrap_or("") {
                 #[cfg(feature = "interop")]
                 "C19" => c19::replay(&j),
+                "C08" => {
+                    c08::set_canon_nan(cfg!(miri));
+                    c08::replay(&j)
+                }
+                "C18" if j["part"].as_str() == Some("P") => c18p::replay(&j),
                 "C18" if j["part"].as_str() == Some("M") => {
                     arena::install_crash_monitor();
                     c18m::replay(&j)
@@ -87,6 +104,35 @@ fn main() {
                 None => serde_json::json!({"reproduced": false, "same_class": false, "class": J::Null, "observed": J::Null}),
             };
             report::write_out(out, &res);
+        }
+        "prof" => {
+            use std::time::Instant;
+            let n = 50;
+            let t = Instant::now();
+            for i in 0..n { let _ = rng::Rng::new(1, "x", i); }
+            eprintln!("rng::new {:?}", t.elapsed() / n as u32);
+            let t = Instant::now();
+            for _ in 0..n { let _ = val::TyId::Vec3A.from_bits(&[1, 2, 3]); }
+            eprintln!("from_bits {:?}", t.elapsed() / n as u32);
+            let v = val::TyId::Vec3A.from_bits(&[1, 2, 3]);
+            let t = Instant::now();
+            for _ in 0..n { let _ = v.glam_bits(); }
+            eprintln!("glam_bits {:?}", t.elapsed() / n as u32);
+            let t = Instant::now();
+            for _ in 0..n { arena::announce(&serde_json::json!({"kind": "slice", "type": "Vec3A", "len": 3}).to_string()); }
+            eprintln!("announce {:?}", t.elapsed() / n as u32);
+            let t = Instant::now();
+            for _ in 0..n { let _ = util::catch(|| { let v: Vec<u32> = vec![]; v[1] }); }
+            eprintln!("catch panic {:?}", t.elapsed() / n as u32);
+            let t = Instant::now();
+            for _ in 0..n { let _ = util::catch(|| 1); }
+            eprintln!("catch ok {:?}", t.elapsed() / n as u32);
+            let t = Instant::now();
+            for _ in 0..n { let _ = hidden::hidden_bits(&v); let _ = hidden::with_hidden_bits(&v, &[1, 2, 3, 4]); }
+            eprintln!("hidden {:?}", t.elapsed() / n as u32);
+            let t = Instant::now();
+            for _ in 0..n { let _ = format!("{}|{}|{}", "abc", 1, 2); }
+            eprintln!("format {:?}", t.elapsed() / n as u32);
         }
         "info" => {
             println!("config={} profile={} hidden_lane={}", util::CONFIG_TAG, util::profile_tag(), hidden::HAS_HIDDEN_LANE);
